@@ -15,7 +15,8 @@
 (*   (blank)        only if P > 0                                          *)
 (*   H              "# Head"                                               *)
 (*   (blank)                                                               *)
-(*   T              <prefix>[t](2)<suffix>     the link under test         *)
+(*   T              <prefix>[<ltext>](2)<suffix>  the link under test; its  *)
+(*                  paragraph may have a second line before or after it    *)
 (*   (blank)                                                               *)
 (*   R              "[r](2)"                   a block reference           *)
 (*   (blank)                                                               *)
@@ -30,21 +31,32 @@ RECURSIVE SumUnits(_), SumBytes(_)
 SumUnits(s) == IF s = <<>> THEN 0 ELSE Units(Head(s)) + SumUnits(Tail(s))
 SumBytes(s) == IF s = <<>> THEN 0 ELSE Bytes(Head(s)) + SumBytes(Tail(s))
 
-\* layout: line numbers of the interesting lines for P leading lines
+\* layout: line numbers of the interesting lines for P leading lines; the paragraph of the link
+\* under test may have one more line ("wrap": "none" | "after" | "before" the link line)
+Before(wrap) == IF wrap = "before" THEN 1 ELSE 0
+Extra(wrap) == IF wrap = "none" THEN 0 ELSE 1
 HeadLine(P) == IF P = 0 THEN 0 ELSE P + 1
-LinkLine(P) == HeadLine(P) + 2
-RefLine(P) == LinkLine(P) + 2
-ItemLine(P) == RefLine(P) + 2
+LinkLineW(P, wrap) == HeadLine(P) + 2 + Before(wrap)
+RefLineW(P, wrap) == HeadLine(P) + 4 + Extra(wrap)
+ItemLineW(P, wrap) == RefLineW(P, wrap) + 2
+LinkLine(P) == LinkLineW(P, "none")
+RefLine(P) == RefLineW(P, "none")
+ItemLine(P) == ItemLineW(P, "none")
 LastLine(P) == ItemLine(P)
 
+\* the link is "[" ltext "](2)"; ltext is a sequence of character classes
+LinkLenT(lt) == SumUnits(lt) + 5
 LinkLen == 6        \* "[t](2)": ASCII, so bytes = units
 
 \* truth: the UTF-16 span [start, end) of the link on its line
 LinkStart(prefix) == SumUnits(prefix)
-LinkEnd(prefix) == SumUnits(prefix) + LinkLen
+LinkEndT(prefix, lt) == SumUnits(prefix) + LinkLenT(lt)
+LinkEnd(prefix) == LinkEndT(prefix, <<"a">>)
 \* the url part inside the parentheses (prepareRename range)
-UrlStart(prefix) == LinkStart(prefix) + 4
-UrlEnd(prefix) == LinkEnd(prefix) - 1
+UrlStartT(prefix, lt) == LinkStart(prefix) + SumUnits(lt) + 3
+UrlEndT(prefix, lt) == LinkEndT(prefix, lt) - 1
+UrlStart(prefix) == UrlStartT(prefix, <<"a">>)
+UrlEnd(prefix) == UrlEndT(prefix, <<"a">>)
 
 InLink(P, prefix, line, ch) == line = LinkLine(P) /\ LinkStart(prefix) <= ch /\ ch < LinkEnd(prefix)
 
